@@ -585,26 +585,34 @@ func looksNumeric(s string) bool {
 // where builds the position-prefixed message for error(msg, level) called from the builtin on top
 // of the frame stack: level 1 is the function that called the builtin.
 func (in *Interp) where(level int, msg string) Value {
-	idx := len(in.frames) - 1 - level
-	if idx < 0 {
-		if in.cur != nil {
-			in.indet("error level beyond the coroutine's own stack")
+	// ldebug.c/lauxlib.c luaL_where: levels are counted from the caller of error downwards; a frame
+	// that was entered by a tail call is followed by one pseudo-level that has no position.
+	lvl := 0
+	for i := len(in.frames) - 2; i >= 0; i-- {
+		lvl++
+		f := in.frames[i]
+		if lvl == level {
+			if !f.isLua {
+				if level == 1 {
+					// error() called directly by a host function (pcall(error, msg)): PUC-Lua adds no
+					// position, gopher-lua's RaiseError design adds the Lua caller's: not judged
+					in.indet("error position level designating a host function")
+				}
+				return msg // a level of 2 or more that is a host function: no position
+			}
+			return &Opaque{Kind: "pos", Lo: f.lo, Hi: f.hi, ELo: f.elo, EHi: f.ehi, Rest: msg}
 		}
-		return msg
-	}
-	f := in.frames[idx]
-	if !f.isLua {
-		// error() not called from Lua code (e.g. pcall(error, msg), or level 2 reaching a host
-		// function): PUC-Lua adds no position, the property only speaks of errors raised from Lua code
-		in.indet("error position level designating a host function")
-	}
-	// a frame above idx entered by a tail call hides its caller
-	for i := idx + 1; i < len(in.frames)-1; i++ {
-		if in.frames[i].tail {
+		if f.tail {
+			lvl++
+			if lvl == level {
+				return msg // the level is the lost caller of a tail call: no position
+			}
+			// levels beyond a tail call: how the remaining levels are counted is not judged
 			in.indet("error position level across a tail call")
 		}
 	}
-	return &Opaque{Kind: "pos", Lo: f.lo, Hi: f.hi, ELo: f.elo, EHi: f.ehi, Rest: msg}
+	// beyond the stack (of the coroutine, or of the main thread): no position
+	return msg
 }
 
 func (in *Interp) fenvTarget(a []Value, fname string, get bool) Value {
